@@ -92,3 +92,67 @@ def decomp_pipeline(arg: dict) -> dict:
 
 def decomp_pipeline_many(args: list[dict]) -> list[dict]:
     return [decomp_pipeline(a) for a in args]
+
+
+def decompile_traced(arg: dict) -> dict:
+    """like decompile, but records the writer protocol: every write_stmnt / write_line / source-map call with the
+    indent in force, by wrapping the methods of the decompiler instance from outside"""
+    from explorerscript.ssb_converting.ssb_data_types import DungeonModeConstants
+    infos, ops, coros = rsjson.rs_from_json(arg["rs"])
+    log: list = []
+    try:
+        if arg.get("ssbs"):
+            from explorerscript.ssb_script.ssb_converting.ssb_decompiler import SsbScriptSsbDecompiler as D
+            dec = D(infos, ops, coros)
+        else:
+            from explorerscript.ssb_converting.ssb_decompiler import ExplorerScriptSsbDecompiler as D
+            dec = D(infos, ops, coros, arg.get("perf", PERF_VAR), DungeonModeConstants(*DMODE))
+        cls = type(dec)
+        stmnt_name = "write_stmnt"
+        line_name = "write_line" if hasattr(cls, "write_line") else "_write_line"
+        orig_stmnt, orig_line = getattr(cls, stmnt_name), getattr(cls, line_name)
+        state = {"fallback": False}
+
+        def w_stmnt(self, stmnt, line=True):  # type: ignore
+            log.append(["indent", self.indent])
+            log.append(["stmnt", stmnt, bool(line)])
+            # the real method calls write_line itself: do not log that inner call
+            state["inner"] = True
+            try:
+                return orig_stmnt(self, stmnt, line)
+            finally:
+                state["inner"] = False
+
+        def w_line(self):  # type: ignore
+            if not state.get("inner"):
+                log.append(["indent", self.indent])
+                log.append(["line"])
+            return orig_line(self)
+        dec.write_stmnt = w_stmnt.__get__(dec, cls)  # type: ignore
+        setattr(dec, line_name, w_line.__get__(dec, cls))
+        if arg.get("ssbs"):
+            orig_read = cls._read_op
+
+            def r_op(self, op):  # type: ignore
+                # _read_op records the entry itself (builder.add_opcode(offset, line, indent*4)) right before write_stmnt
+                log.append(["indent", self.indent])
+                log.append(["opcode", op.offset])
+                return orig_read(self, op)
+            dec._read_op = r_op.__get__(dec, cls)  # type: ignore
+        if not arg.get("ssbs"):
+            o1, o2 = cls.source_map_add_opcode, getattr(cls, "source_map_add_opcode_in_current_line", None)
+
+            def a1(self, off):  # type: ignore
+                log.append(["indent", self.indent])
+                log.append(["opcode", off])
+                return o1(self, off)
+            dec.source_map_add_opcode = a1.__get__(dec, cls)  # type: ignore
+            if o2 is not None:
+                def a2(self, off):  # type: ignore
+                    log.append(["opcode_inline", off])
+                    return o2(self, off)
+                dec.source_map_add_opcode_in_current_line = a2.__get__(dec, cls)  # type: ignore
+        text, sm = dec.convert()
+    except BaseException as e:  # noqa
+        return _exc(e)
+    return {"text": text, "source_map": sm_json(sm), "log": log, "fallback": "is-ssb-script" in text.split("\n", 1)[0]}
